@@ -89,6 +89,17 @@ CHECKS = {
         "entry forms agree. (32,11): all 2^11 messages x both parities.",
         "Layouts are the spec's reading of ETSI B.2 (for (32,11) as tabulated in the library); (128,72)/(68,28) message spaces are sampled (unit messages, all 31 CS5 values, random).",
     ),
+    "C10": (
+        "DESIGN.md 5/C10",
+        "TLC exhaustive check of the learned trellis tables and of the encoder x decoder product machine (Trellis34.tla) + observed blocks re-encoded by TLC + corrupted streams judged",
+        "The 8x8 transition table, the constellation and dibit maps and the 98-position interleaver are learned through the public API; "
+        "TLC checks exhaustively that every table row is injective, both maps are bijections, interleave/deinterleave are inverse "
+        "permutations and that the decoder state tracks the encoder state over all tribit strings up to length 4 from all states; "
+        "blocks embedding each of the 64 transitions at three positions, unit, constant and random blocks are encoded/decoded by the "
+        "implementation (bits and bytes input), re-encoded by TLC with the pipeline over the learned tables, and streams with one "
+        "replaced constellation point are judged (unreachable point => rejected).",
+        "2^144 blocks by the structural argument over learned tables plus sampled end-to-end blocks; rejection = AssertionError from decode.",
+    ),
 }
 
 NOT_YET = {}
